@@ -175,13 +175,19 @@ theorem openStep_inv (cfg : PartCfg) (s s' : DC) (x : Xml) (c : Bool) (roots : L
   · exact withTrue_inv _ s' r (fun t ht => insertNewRun_inv cfg.html s t _ hs ht) h
   · have := pure_ok h; cases this; exact hs
 
-theorem closeStep_inv (cfg : PartCfg) (s s' : DC) (x : Xml) (hs : Inv s) (h : closeStep cfg s x = .ok s') : Inv s' := by
-  unfold closeStep at h
+theorem closeStepCore_inv (cfg : PartCfg) (s s' : DC) (x : Xml) (hs : Inv s) (h : closeStepCore cfg s x = .ok s') : Inv s' := by
+  unfold closeStepCore at h
   split at h
   · exact concludePar_inv s s' hs h
   · exact commenceRun_inv cfg.html s s' none hs h
   · exact closeTableCell_inv cfg.dup s s' x hs h
   · have := pure_ok h; subst this; exact hs
+
+theorem closeStep_inv (cfg : PartCfg) (s s' : DC) (x : Xml) (hs : Inv s) (h : closeStep cfg s x = .ok s') : Inv s' :=
+  closeStep_preserves concludePar_inv cfg x (fun a b ha hb => closeStepCore_inv cfg a b x ha hb) s s' hs h
+
+theorem setCaretOpen_inv (s s' : DC) (d : Option Nat) (n : Option Str) (hs : Inv s) (h : s.setCaretOpen d n = .ok s') : Inv s' :=
+  setCaretOpen_preserves concludePar_inv (fun a b d n ha hb => setCaret_inv a b d n ha hb) s s' d n hs h
 
 theorem finish_inv (cfg : PartCfg) (s s' : DC) (hs : Inv s) (h : finish cfg s = .ok s') : Inv s' := by
   unfold finish at h
@@ -198,7 +204,7 @@ theorem walk_inv (cfg : PartCfg) (num : Dict Str (List NumAttr)) :
   | .elem i p t m a tx tl ks, c, s, s', hs, h => by
     simp only [walk] at h
     obtain ⟨s1, h1, h⟩ := bind_ok h
-    have i1 := setCaret_inv s s1 _ _ hs h1
+    have i1 := setCaretOpen_inv s s1 _ _ hs h1
     obtain ⟨roots, _, h⟩ := bind_ok h
     obtain ⟨⟨s2, rec⟩, h2, h⟩ := bind_ok h
     have i2 : Inv s2 := openStep_inv cfg s1 s2 _ c roots rec i1 h2
